@@ -6,6 +6,7 @@ import (
 	"fmt"
 	"runtime/debug"
 	"sync"
+	"time"
 
 	"github.com/syndtr/goleveldb/leveldb"
 	"github.com/syndtr/goleveldb/leveldb/comparer"
@@ -79,6 +80,7 @@ type Env struct {
 	pinned   []*leveldb.VerifVersion
 	tcache   map[int64]*tableSummary
 	opIdx    int
+	reads    int
 	opens    int
 	delSeen  bool
 	removals int
@@ -102,6 +104,14 @@ func NewEnv(c *Case) *Env {
 	e := &Env{C: c, FS: vfs.New(), M: model.NewMap(), tcache: map[int64]*tableSummary{}}
 	e.O = c.Opts.Build(c.Cmp)
 	e.Cmp = e.O.Comparer
+	if c.SlowFlush {
+		// keep the frozen buffer around for a while: reads then hit it
+		e.FS.Hook = func(kind string, fd storage.FileDesc) {
+			if kind == vfs.OpCreate && fd.Type == storage.TypeTable {
+				time.Sleep(150 * time.Microsecond)
+			}
+		}
+	}
 	e.St.TreeClasses = map[string]int{}
 	return e
 }
@@ -310,7 +320,12 @@ func (e *Env) noteCompaction(before Stats) {
 
 func (e *Env) checkGet(k []byte) error {
 	want, ok := e.M.Get(k)
-	got, err := e.DB.Get(k, nil)
+	e.reads++
+	var ro *opt.ReadOptions
+	if e.reads%3 == 0 {
+		ro = &opt.ReadOptions{DontFillCache: true} // a hit in the block cache is still served from the shared block
+	}
+	got, err := e.DB.Get(k, ro)
 	if ok {
 		if err != nil {
 			return e.fail("Get(%q): error %v, model has %s", k, err, short(want))
@@ -557,6 +572,45 @@ func (e *Env) Step(i int, op *Op) error {
 			}
 		}
 		return e.afterWrite(keys)
+
+	case "churn":
+		// many version changes in a row: buffer-sized puts, each forcing a flush (and the
+		// compactions it triggers); used to put hundreds of versions behind a pinned iterator
+		if e.Tr != nil {
+			return nil
+		}
+		n := op.Slot
+		if n <= 0 {
+			n = 40
+		}
+		wb := e.O.GetWriteBuffer()
+		if wb > 2048 {
+			wb = 2048
+		}
+		for j := 0; j < n; j++ {
+			k := e.key(op.K + j%3)
+			v := gen.VSpec{Len: wb, Fill: j % 2}.Bytes(e.tag(j))
+			if err := e.DB.Put(append([]byte{}, k...), v, nil); err != nil {
+				return e.fail("churn put #%d: unexpected error %v", j, err)
+			}
+			e.M.Put(k, v)
+			e.markDirty(k)
+			if j%8 == 7 {
+				if err := e.DB.VerifWaitIdle(); err != nil {
+					return e.fail("VerifWaitIdle: %v", err)
+				}
+				if err := e.drainPinned(); err != nil {
+					return err
+				}
+			}
+		}
+		before := e.St
+		if err := e.idle(false); err != nil {
+			return err
+		}
+		e.pollStats()
+		e.noteCompaction(before)
+		return e.checkGet(e.key(op.K))
 
 	case "get", "has":
 		if e.Tr != nil && op.Src == "tr" {
